@@ -1,8 +1,8 @@
 (* C13 — Mining rewards and lockups pay out exactly once, no earlier, no more.
-   Property theorems only.  Model: Model/C13.v   Lemmas: Proofs/C13.v, Proofs/C13_Redeem.v, Proofs/C13_Uncles.v, Proofs/C13_Reorg.v
+   Property theorems only.  Model: Model/C13.v   Lemmas: Proofs/C13.v, Proofs/C13_Redeem.v, Proofs/C13_Uncles.v, Proofs/C13_Reorg.v, Proofs/C13_Reward.v
    Generated data: Generated/C13Params.v (params.LockupByteToBlockDepth, multipliers, epoch length, ...). *)
 From Coq Require Import List NArith ZArith Bool.
-From GQ Require Import Lib.Key Lib.SMap Generated.C13Params Model.C13 Proofs.C13 Proofs.C13_Redeem Proofs.C13_Uncles Proofs.C13_Reorg.
+From GQ Require Import Lib.Key Lib.SMap Generated.C13Params Model.C13 Proofs.C13 Proofs.C13_Redeem Proofs.C13_Uncles Proofs.C13_Reorg Proofs.C13_Reward.
 Import ListNotations.
 Import C13Params.
 Local Open Scope N_scope.
@@ -445,4 +445,58 @@ Example rollback_restores_nonvacuous :
   r_bal (read (fst (collect [] rw_ops)) (add_key (rw_add 100))) = 150%Z /\
   run_case [] [(CPrim (OAdd (rw_add 100)), RAdd true false None (mkRec 100 200000 1 zero_addr)); (CBlockEnd, RNone);
                (CRollback 1, RNone); (CPrim (OGet (a_owner (rw_add 1)) (a_miner (rw_add 1)) 0 1), RGet true empty_rec)] = true.
+Proof. vm_compute. repeat split; reflexivity. Qed.
+
+(* ---- post-fork share reward amounts: the time discount of a merged-mined share
+        (core/headerchain.go CalculateTimeDiscountedShareReward, model time_discount; uint32 time arithmetic wraps) ---- *)
+
+(* obligations on the generated constants: threshold < both liveness times, penalty <= divisor, no uint32 product wraps *)
+Theorem params_time_discount_sane : discount_params_ok = true.
+Proof. vm_compute. reflexivity. Qed.
+Print Assumptions params_time_discount_sane.
+
+(* the function never divides by zero, for every pow id, timestamp, signature time and reward *)
+Theorem share_discount_total : forall pid ts sg reward, time_discount pid ts sg reward <> None.
+Proof. exact td_total. Qed.
+Print Assumptions share_discount_total.
+
+(* "no more": the discounted amount never exceeds the share reward and never falls below the maximum-penalty amount *)
+Theorem share_discount_bounds : forall pid ts sg reward v, (0 <= reward)%Z -> time_discount pid ts sg reward = Some v ->
+  (max_penalty_amount reward <= v <= reward)%Z.
+Proof. exact td_bounds. Qed.
+Print Assumptions share_discount_bounds.
+
+(* a share signed at most NoPenaltyTimeThreshold seconds before its header timestamp is paid in full *)
+Theorem share_discount_fresh_is_full : forall pid ts sg reward, u32sub ts sg <= no_penalty_time_threshold ->
+  time_discount pid ts sg reward = Some reward.
+Proof. exact td_fresh. Qed.
+Print Assumptions share_discount_fresh_is_full.
+
+(* elapsed time (as the uint32 difference the code computes) at or beyond the liveness time of the share's
+   algorithm: exactly reward * UnlivelySharePenalty / ShareRewardPenaltyDivisor *)
+Theorem share_discount_stale_is_max_penalty : forall pid ts sg reward, liveness_of pid <= u32sub ts sg ->
+  time_discount pid ts sg reward = Some (max_penalty_amount reward).
+Proof. exact td_stale. Qed.
+Print Assumptions share_discount_stale_is_max_penalty.
+
+(* a signature time LATER than the header timestamp (post-dated template signature) is NOT fresh: the uint32
+   difference wraps and the share gets the maximum penalty (all post-datings up to 2^32 - liveness seconds) *)
+Theorem share_discount_postdated_is_max_penalty : forall pid ts sg reward,
+  ts < sg -> sg < two32 -> sg - ts <= two32 - liveness_of pid ->
+  time_discount pid ts sg reward = Some (max_penalty_amount reward).
+Proof. exact td_postdated. Qed.
+Print Assumptions share_discount_postdated_is_max_penalty.
+
+(* an older share (larger elapsed uint32 time) is never paid more than a fresher one of the same algorithm *)
+Theorem share_discount_monotone : forall pid ts sg ts' sg' reward v v', (0 <= reward)%Z ->
+  u32sub ts sg <= u32sub ts' sg' ->
+  time_discount pid ts sg reward = Some v -> time_discount pid ts' sg' reward = Some v' -> (v' <= v)%Z.
+Proof. exact td_monotone. Qed.
+Print Assumptions share_discount_monotone.
+
+Example share_discount_nonvacuous :
+  time_discount 1 110 100 1000 = Some 860%Z /\ time_discount 2 110 100 1000 = Some 922%Z /\
+  time_discount 1 103 100 1000 = Some 1000%Z /\ time_discount 4 118 100 1000 = Some 700%Z /\
+  time_discount 1 100 140 1234567000000000000 = Some 864196900000000000%Z /\
+  time_discount 3 1 4294967295 1000 = Some 1000%Z /\ u32sub 100 140 = 4294967256.
 Proof. vm_compute. repeat split; reflexivity. Qed.
